@@ -67,3 +67,20 @@ Example c05_graph_hyps_example :
   | None => False
   end.
 Proof. vm_compute. split; [reflexivity|exact I]. Qed.
+
+(* dag_ok (hypotheses of c05_kahn_order_topological) is satisfiable: the two-object example, rank = depth *)
+Example c05_dag_ok_nonvacuous : dag_ok ex_objs 2 (fun id => if id =? 2 then 0%nat else 1%nat).
+Proof.
+  constructor.
+  - cbn. repeat constructor; cbn; intuition lia.
+  - cbn. auto.
+  - intros id o l Ho Hl. cbn in Ho. destruct (id =? 1); [inversion Ho; subst; destruct Hl|].
+    destruct (id =? 2); [|discriminate]. inversion Ho; subst. destruct Hl as [<-|[]]. cbn. auto.
+  - intros id o l Ho Hl. cbn in Ho. destruct (id =? 1) eqn:E1; [inversion Ho; subst; destruct Hl|].
+    destruct (id =? 2) eqn:E2; [|discriminate]. inversion Ho; subst. destruct Hl as [<-|[]]. cbn. lia.
+  - intros x [<-|[<-|[]]].
+    + apply (reach_step ex_objs 2 2 (mkObj [9; 255; 255; 8] [mkLink 1 2 1 0]) (mkLink 1 2 1 0)); [apply reach_root|reflexivity|left; reflexivity].
+    + apply reach_root.
+  - intros id o l [E|[E|[]]] Hl; inversion E; subst; cbn in Hl; [destruct Hl|destruct Hl as [<-|[]]; cbn; lia].
+  - cbn. lia.
+Qed.
